@@ -291,10 +291,10 @@ func verifC16StaleToken(rec *kit.Rec, variant string, last int) {
 	}
 	peak := st.State().Peak
 	// now buffered = 384K (or less if the implementation was stricter).  The next write must wait.
-	ba0 := st.State().BACalls
+	ba0, w0 := st.State().BACalls, st.State().Writes
 	done := make(chan error, 1)
 	go func() { _, err := conn.Write(buf[:last]); done <- err }()
-	st.WaitState(20*time.Second, func(s verifC16StreamState) bool { return s.BACalls > ba0 })
+	st.WaitState(20*time.Second, func(s verifC16StreamState) bool { return s.BACalls > ba0 || s.Writes > w0 })
 	// give a wrong implementation the chance to run past the wait; a correct one sits in the select
 	for i := 0; i < 50; i++ {
 		runtime.Gosched()
@@ -359,12 +359,12 @@ func verifC16CloseReleases(rec *kit.Rec, variant string, writers int, staleToken
 		conn.Write(buf) // takes the token; buffered = 384K
 	}
 	// the network is stalled from here on: nothing drains
-	ba0 := st.State().BACalls
+	ba0, w0 := st.State().BACalls, st.State().Writes
 	done := make(chan error, writers)
 	for i := 0; i < writers; i++ {
 		go func() { _, err := conn.Write(buf[:1+K]); done <- err }()
 	}
-	st.WaitState(20*time.Second, func(s verifC16StreamState) bool { return s.BACalls > ba0 })
+	st.WaitState(20*time.Second, func(s verifC16StreamState) bool { return s.BACalls > ba0 || s.Writes > w0 })
 	if delayUS > 0 {
 		time.Sleep(time.Duration(delayUS) * time.Microsecond)
 	}
